@@ -11,7 +11,7 @@ import (
 // cbAnchors are the objects the callback rules are stated over.
 type cbAnchors struct {
 	callback, decodeState, genName, loadCSRF, redeemCode, enrich, saveSession *ssa.Function
-	checkState, checkNonce, setNonce, getVerifier, clearCookie, setCookie    *types.Func
+	checkState, checkNonce, setNonce, getVerifier, clearCookie, setCookie     *types.Func
 	hashState, hashNonce                                                      *types.Func
 	validateSession, authorize, storeSave, isValidRedirect                    *types.Func
 	validatorF, emailF                                                        *types.Var
@@ -71,11 +71,11 @@ func savedSession(p *walk.Path, cl walk.Call) walk.DV {
 type Facet int
 
 const (
-	FacetState  Facet = iota // C03: decodeState ok, CSRF cookie loaded by derived name, CheckOAuthState(nonce)
-	FacetNonce               // C05: SetSessionNonce before ValidateSession==true, same csrf/session
-	FacetPKCE                // C05: redeemCode gets csrf.GetCodeVerifier() of the loaded cookie
-	FacetIdP                 // C14: redeemCode err==nil, enrichSessionState==nil, session is redeemCode's
-	FacetAuthz               // C08: Validator(session.Email) && Authorize(session)
+	FacetState Facet = iota // C03: decodeState ok, CSRF cookie loaded by derived name, CheckOAuthState(nonce)
+	FacetNonce              // C05: SetSessionNonce before ValidateSession==true, same csrf/session
+	FacetPKCE               // C05: redeemCode gets csrf.GetCodeVerifier() of the loaded cookie
+	FacetIdP                // C14: redeemCode err==nil, enrichSessionState==nil, session is redeemCode's
+	FacetAuthz              // C08: Validator(session.Email) && Authorize(session)
 )
 
 // checkCallbackSave walks OAuthCallback once and checks the requested facet at every save sink.
